@@ -252,7 +252,8 @@ def render_param(param, keys):
 # ----------------------------------------------------------------------------- molecules
 
 RESIDS = {'consecutive': [1, 2, 3, 4], 'gap': [1, 2, 4, 5], 'descending': [9, 8, 7, 6], 'duplicated': [1, 2, 1, 2],
-          'names-rotated': [1, 2, 3, 4]}      # same numbers as 'consecutive', residue names shifted by one (GLY ALA LYS ALA)
+          'names-rotated': [1, 2, 3, 4],      # same numbers as 'consecutive', residue names shifted by one (GLY ALA LYS ALA)
+          'stretched': [1, 2, 3, 4]}          # same numbers, names and node keys as 'consecutive', other coordinates
 RESNAMES = ['ALA', 'GLY', 'ALA', 'LYS']
 
 
@@ -269,6 +270,8 @@ def build_molecule(nres, numbering, connectivity, ff):
             if name == 'SC1' and ((connectivity == 'linear-gly-bare' and res == 1) or (connectivity == 'linear-first-bare' and res == 0)):
                 continue        # a residue without side chain: the only place where "BB not bonded to SC1" holds
             pos = np.array([2.0 * res + (res % 2) + offset[0], offset[1] + (res // 2), offset[2] + 0.5 * res], dtype=float)
+            if numbering == 'stretched':
+                pos = pos * 1.5 + np.array([0.0, 0.25 * res, 0.125 * key])
             mol.add_node(key, atomname=name, resname=RESNAMES[(res + 1) % 4] if numbering == 'names-rotated' else RESNAMES[res], resid=RESIDS[numbering][res], chain=chain, position=pos, charge=0)
             atoms[(res, name)] = key
             key += 1
@@ -587,7 +590,8 @@ def run(ctx):
     if idle:
         raise common.HarnessError('links of the grammar that fit nowhere in any molecule (vacuous entries): %r' % (idle,))
     ctx.layer('links', acc)
-    pool = [m for m in MOLECULES if m[0] == 3][:4] + [m for m in MOLECULES if m[0] != 3][:2] + [(3, 'names-rotated', 'linear'), (4, 'names-rotated', 'star')]
+    pool = [m for m in MOLECULES if m[0] == 3][:4] + [m for m in MOLECULES if m[0] != 3][:2] + [(3, 'names-rotated', 'linear'), (4, 'names-rotated', 'star')] + \
+        [(3, 'stretched', 'linear'), (4, 'stretched', 'star')]     # the same node keys as an earlier molecule at other coordinates
     seqs = []
     for i in range(len(GRAMMAR)):
         for a, b in itertools.permutations(pool, 2):
